@@ -513,6 +513,52 @@ func H_C05_writers() {
 	vReach("writers")
 }
 
+func init() { vReg("H_C05_shared_writer", H_C05_shared_writer) }
+
+// C05: one handler that writes from two goroutines through its ResponseWriter (a search
+// handler streaming entries from a worker while it writes itself): each successful Write
+// still puts exactly its own frame on the wire, once.
+func H_C05_shared_writer() {
+	vSchedFork(1)
+	vPreemptBudget(1 + vLen("extraPreemptions", 1))
+	m := vMux()
+	nc := vNetConn("c")
+	write := func(w *ResponseWriter, r *Request, tag string) {
+		vEvent("W.begin", tag)
+		err := w.Write(r.NewResponse(WithResponseCode(ResultSuccess), WithDiagnosticMessage("frame-"+tag)))
+		vEvent("W.end", tag)
+		vAssert(err == nil, "write succeeds")
+	}
+	hf := func(w *ResponseWriter, r *Request) {
+		done := vGate("worker done")
+		go func() {
+			defer vGateOpen(done)
+			write(w, r, "worker")
+		}()
+		write(w, r, "handler")
+		vGateWait(done)
+	}
+	vAssume(m.Delete(hf) == nil)
+	vConnFeed(nc, vWire(refEnvelope(1, refDeleteOp(), nil)))
+	c, err := newConn(context.Background(), 1, nc, vLogger(), m)
+	vAssume(err == nil)
+	_ = c.serveRequests()
+	c.requestsWg.Wait()
+	total := vConnWrites(nc)
+	vAssertE(total == 2, "exactly one frame reaches the client per successful Write")
+	seen := map[string]int{}
+	for i := 0; i < total; i++ {
+		p := ber.DecodePacket(vConnWriteN(nc, i))
+		vAssertE(p != nil && len(p.Children) >= 2 && len(p.Children[1].Children) >= 3, "every chunk the client receives is one whole LDAPMessage")
+		if p == nil || len(p.Children) < 2 || len(p.Children[1].Children) < 3 {
+			continue
+		}
+		seen[p.Children[1].Children[2].Data.String()]++
+	}
+	vAssertE(seen["frame-handler"] == 1 && seen["frame-worker"] == 1, "each of the two frames written arrives exactly once (none lost, none duplicated)")
+	vReach("shared writer")
+}
+
 func init() { vReg("H_C05_upgrade_inflight", H_C05_upgrade_inflight) }
 
 // C05 / C15: a client pipelines StartTLS behind a request whose handler is still
